@@ -45,6 +45,9 @@ Proof.
   - apply R_same. match goal with |- c_rd (upd ?f ?k ?v y) = _ => destruct (upd_cases f k v y) as [[-> ->]|[_ ->]] end; reflexivity.
   - apply R_same. match goal with |- c_rd (upd ?f ?k ?v y) = _ => destruct (upd_cases f k v y) as [[-> ->]|[_ ->]] end; reflexivity.
   - apply R_same. match goal with |- c_rd (upd ?f ?k ?v y) = _ => destruct (upd_cases f k v y) as [[-> ->]|[_ ->]] end; reflexivity.
+  - now apply R_same.
+  - apply R_same, rd_upd_pc.
+  - apply R_same. match goal with |- c_rd (upd ?f ?k ?v y) = _ => destruct (upd_cases f k v y) as [[-> ->]|[_ ->]] end; reflexivity.
 Qed.
 
 (** a reader other than the acting connection stays a reader *)
